@@ -41,6 +41,7 @@ var dests = []reflect.Type{
 		B string
 	}{}),
 	reflect.TypeOf([1]*int{}),
+	reflect.TypeOf((*big.Int)(nil)), reflect.TypeOf((*big.Float)(nil)), reflect.TypeOf(big.Rat{}),
 }
 
 // refDests are the destinations of the "ref" domain: the first field takes a value as it comes, the second is
@@ -257,6 +258,13 @@ func runCell(domain string, cell int, input []byte) outcome {
 			cc.ReturnType = cliReturn[cell]
 			canned = input
 			_, err = client.InvokeContext(core.WithContext(context.Background(), cc), "f", nil)
+			// and the codec on its own (ClientCodec.Decode is an entry point of its own: Client.InvokeContext turns a
+			// panic of the codec into an error, a direct user of the codec has no such net)
+			cc2 := core.NewClientContext()
+			cc2.ReturnType = cliReturn[cell]
+			if _, e := core.NewClientCodec().Decode(append([]byte(nil), input...), cc2); err == nil {
+				err = e
+			}
 		}
 	}
 	msg, pcs := guard(f)
